@@ -5,7 +5,7 @@ import datetime as _dt
 import z3
 from . import engine as E
 from .engine import Unmodelled
-from .values import (SymInt, SymBool, SymFloat, SymStr, zint, mkint, mkbool, fdiv, float_binop, is_numlike,
+from .values import (SymInt, SymBool, SymFloat, SymStr, zint, mkint, mkbool, fdiv, fmod, float_binop, is_numlike,
                      concretize_int, TWO53)
 from . import models
 
@@ -125,12 +125,11 @@ class SymTimedelta(object):
     @property
     def seconds(self):
         r = self.us - US_DAY * fdiv(self.us, z3.IntVal(US_DAY))
-        return mkint(r / 10 ** 6)
+        return mkint(fdiv(r, z3.IntVal(10 ** 6)))
 
     @property
     def microseconds(self):
-        r = self.us - US_DAY * fdiv(self.us, z3.IntVal(US_DAY))
-        return mkint(r % 10 ** 6)
+        return mkint(fmod(self.us, z3.IntVal(10 ** 6)))
 
     def __radd__(self, o):
         return self.__add__(o)
@@ -178,10 +177,10 @@ class SymTime(object):
     def __init__(self, us):
         self.us = us
 
-    hour = property(lambda s: mkint(z3.simplify(s.us / (3600 * 10 ** 6))))
-    minute = property(lambda s: mkint(z3.simplify((s.us / (60 * 10 ** 6)) % 60)))
-    second = property(lambda s: mkint(z3.simplify((s.us / 10 ** 6) % 60)))
-    microsecond = property(lambda s: mkint(z3.simplify(s.us % 10 ** 6)))
+    hour = property(lambda s: mkint(fdiv(s.us, z3.IntVal(3600 * 10 ** 6))))
+    minute = property(lambda s: mkint(fmod(fdiv(s.us, z3.IntVal(60 * 10 ** 6)), z3.IntVal(60))))
+    second = property(lambda s: mkint(fmod(fdiv(s.us, z3.IntVal(10 ** 6)), z3.IntVal(60))))
+    microsecond = property(lambda s: mkint(fmod(s.us, z3.IntVal(10 ** 6))))
 
     def __sym_concretize__(self, model):
         u = model.eval(self.us, model_completion=True).as_long()
@@ -249,17 +248,17 @@ class SymDateTime(object):
     year = property(lambda s: mkint(s._ymd()[0]))
     month = property(lambda s: mkint(s._ymd()[1]))
     day = property(lambda s: mkint(s._ymd()[2]))
-    hour = property(lambda s: mkint(z3.simplify(s.us / (3600 * 10 ** 6))))
-    minute = property(lambda s: mkint(z3.simplify((s.us / (60 * 10 ** 6)) % 60)))
-    second = property(lambda s: mkint(z3.simplify((s.us / 10 ** 6) % 60)))
-    microsecond = property(lambda s: mkint(z3.simplify(s.us % 10 ** 6)))
+    hour = property(lambda s: mkint(fdiv(s.us, z3.IntVal(3600 * 10 ** 6))))
+    minute = property(lambda s: mkint(fmod(fdiv(s.us, z3.IntVal(60 * 10 ** 6)), z3.IntVal(60))))
+    second = property(lambda s: mkint(fmod(fdiv(s.us, z3.IntVal(10 ** 6)), z3.IntVal(60))))
+    microsecond = property(lambda s: mkint(fmod(s.us, z3.IntVal(10 ** 6))))
     tzinfo = None
 
     def weekday(self):
-        return mkint(z3.simplify((self.ord + 6) % 7))
+        return mkint(fmod(self.ord + 6, z3.IntVal(7)))
 
     def isoweekday(self):
-        return mkint(z3.simplify((self.ord + 6) % 7 + 1))
+        return mkint(fmod(self.ord + 6, z3.IntVal(7)) + 1)
 
     def toordinal(self):
         return mkint(self.ord)
@@ -410,17 +409,32 @@ def fresh_datetime(e, name, month=None, ymin=1900, ymax=9999, with_time=False, m
     time of day at millisecond resolution when with_time."""
     y = z3.Int(name + '_y')
     d = z3.Int(name + '_d')
-    e.add(y >= ymin, y <= ymax)
+    e.bounded(y, ymin, ymax)
     if month is None:
         m = z3.Int(name + '_m')
-        e.add(m >= 1, m <= 12)
+        e.bounded(m, 1, 12)
     else:
         m = z3.IntVal(month)
-    e.add(d >= 1, d <= z_days_in_month(y, m))
+    e.bounded(d, 1, 31)
+    e.add(d <= z_days_in_month(y, m))
     if with_time:
         ms = z3.Int(name + '_ms')
-        e.add(ms >= 0, ms < 86400000)
+        e.bounded(ms, 0, 86399999)
         us = ms * 1000
     else:
         us = z3.IntVal(0)
     return SymDateTime(z3.simplify(z_ymd2ord(y, m, d)), us, (y, m, d))
+
+
+def fresh_datetime_ord(e, name, ord_min=None, ord_max=None, with_time=False):
+    """A symbolic date(-time) given directly by its proleptic ordinal (any day in range) - for code that never reads
+    year/month/day, this avoids the calendar arithmetic altogether."""
+    o = z3.Int(name + '_ord')
+    e.bounded(o, ord_min if ord_min is not None else _dt.date(1900, 1, 1).toordinal(), ord_max if ord_max is not None else MAXORD)
+    if with_time:
+        ms = z3.Int(name + '_ms')
+        e.bounded(ms, 0, 86399999)
+        us = ms * 1000
+    else:
+        us = z3.IntVal(0)
+    return SymDateTime(o, us)
